@@ -47,7 +47,20 @@ def info_of(shape):
     m = np.zeros((r, c))
     for i in range(min(r, c)):
         m[i, i] = 2.0 + i
+    # the value content of the information matrix is not part of consistency (only its shape is): vary it -- diagonal, dense symmetric, symmetric
+    # only up to rounding (inv(cov), R diag(w) R^T), integer dtype
+    _info_calls[0] += 1
+    form = _info_calls[0] % 4
+    if form and r == c and r > 1:
+        m = m + 0.25
+        if form == 2:
+            m[0, 1] = np.nextafter(m[0, 1], 1.0)
+        elif form == 3:
+            m = (4 * m).astype(np.int64)
     return m
+
+
+_info_calls = [0]
 
 
 def check(run, only=None):
